@@ -480,11 +480,12 @@ def key_id(kt, v):
 
 
 class ValGen:
-    def __init__(self, uni, rng, big=False, max_depth=4):
+    def __init__(self, uni, rng, big=False, max_depth=4, minimal=False):
         self.u = uni
         self.rng = rng
         self.big = big
         self.max_depth = max_depth
+        self.minimal = minimal      # inner containers / strings empty: count checks at their tightest
 
     def val(self, t, depth=0, optional=False):
         rng = self.rng
@@ -492,20 +493,24 @@ class ValGen:
         if k in SCALARS:
             return ('s', gen_scalar(k, rng))
         if k == 'string':
-            return ('b', gen_bytes(rng, self.big))
+            return ('b', b'' if self.minimal and depth > 1 else gen_bytes(rng, self.big))
         if k == 'binary':
             if rng.chance(1, 6):
                 return ('bn',)
-            return ('b', gen_bytes(rng, self.big))
+            return ('b', b'' if self.minimal and depth > 1 else gen_bytes(rng, self.big))
         if k in ('list', 'set'):
             if rng.chance(1, 8):
                 return ('ln',)
             n = self.count(LIST_SIZES, BIG_LIST_SIZES, depth, t[1])
+            if self.minimal:
+                n = 0 if depth > 1 else rng.pick([2, 3, 5, 6])
             return ('l', [self.val(t[1], depth + 1) for _ in range(n)])
         if k == 'map':
             if rng.chance(1, 8):
                 return ('mn',)
             n = self.count(MAP_SIZES, BIG_MAP_SIZES, depth, t[2])
+            if self.minimal:
+                n = 0 if depth > 1 else rng.pick([2, 3, 5])
             es, seen = [], set()
             for _ in range(n * 3):
                 if len(es) >= n:
